@@ -6,14 +6,14 @@
 /// Check for `assertion`: ""format class = class of the first date-like token of the first section""
 
 #[test]
-fn kani_concrete_playback_c10_q_grammar_3_2699752722717790369() {
+fn kani_concrete_playback_c10_q_grammar_3_13805986787156380271() {
     let concrete_vals: Vec<Vec<u8>> = vec![
-        // 7ul
-        vec![7, 0, 0, 0, 0, 0, 0, 0],
-        // 15ul
-        vec![15, 0, 0, 0, 0, 0, 0, 0],
-        // 29ul
-        vec![29, 0, 0, 0, 0, 0, 0, 0],
+        // 35ul
+        vec![35, 0, 0, 0, 0, 0, 0, 0],
+        // 40ul
+        vec![40, 0, 0, 0, 0, 0, 0, 0],
+        // 30ul
+        vec![30, 0, 0, 0, 0, 0, 0, 0],
     ];
     kani::concrete_playback_run(concrete_vals, c10_q_grammar_3);
 }
@@ -23,14 +23,14 @@ fn kani_concrete_playback_c10_q_grammar_3_2699752722717790369() {
 /// Check for `cover`: "end-elapsed"
 
 #[test]
-fn kani_concrete_playback_c10_q_grammar_3_4097128043981738637() {
+fn kani_concrete_playback_c10_q_grammar_3_11135621503582735582() {
     let concrete_vals: Vec<Vec<u8>> = vec![
-        // 32ul
-        vec![32, 0, 0, 0, 0, 0, 0, 0],
-        // 21ul
-        vec![21, 0, 0, 0, 0, 0, 0, 0],
-        // 1ul
-        vec![1, 0, 0, 0, 0, 0, 0, 0],
+        // 22ul
+        vec![22, 0, 0, 0, 0, 0, 0, 0],
+        // 31ul
+        vec![31, 0, 0, 0, 0, 0, 0, 0],
+        // 31ul
+        vec![31, 0, 0, 0, 0, 0, 0, 0],
     ];
     kani::concrete_playback_run(concrete_vals, c10_q_grammar_3);
 }
@@ -40,14 +40,14 @@ fn kani_concrete_playback_c10_q_grammar_3_4097128043981738637() {
 /// Check for `cover`: "end-date"
 
 #[test]
-fn kani_concrete_playback_c10_q_grammar_3_1434018090748661412() {
+fn kani_concrete_playback_c10_q_grammar_3_17928942619583348609() {
     let concrete_vals: Vec<Vec<u8>> = vec![
-        // 4ul
-        vec![4, 0, 0, 0, 0, 0, 0, 0],
-        // 30ul
-        vec![30, 0, 0, 0, 0, 0, 0, 0],
-        // 6ul
-        vec![6, 0, 0, 0, 0, 0, 0, 0],
+        // 19ul
+        vec![19, 0, 0, 0, 0, 0, 0, 0],
+        // 12ul
+        vec![12, 0, 0, 0, 0, 0, 0, 0],
+        // 39ul
+        vec![39, 0, 0, 0, 0, 0, 0, 0],
     ];
     kani::concrete_playback_run(concrete_vals, c10_q_grammar_3);
 }
